@@ -2,6 +2,7 @@
 from __future__ import annotations
 
 import ast
+import re as _re
 
 from .model import AnchorError, ClassInfo, ModuleInfo, Program
 
@@ -34,3 +35,191 @@ def fold_str(prog: Program, scope, expr: ast.AST, depth: int = 0) -> str:
         if isinstance(ent, tuple) and ent[0] == "const":
             return fold_str(prog, ent[1], ent[1].constants[ent[2]], depth + 1)
     raise AnchorError(f"cannot fold `{ast.unparse(expr)[:60]}` to a constant string")
+
+
+_MISSING = object()
+
+
+class _ExprFn:
+    """Shim that lets partial_eval evaluate a module-level expression."""
+    def __init__(self, module, name, expr):
+        self.module, self.qualname = module, f"{module.name}:{name}"
+        self.node = ast.Module(body=[ast.Return(value=expr)], type_ignores=[])
+
+
+def const_value(prog: Program, module, name: str, _busy=set()):
+    """Value of a module-level constant: folded, or evaluated through the repo's pure string builders."""
+    expr = module.constants[name]
+    try:
+        return fold_str(prog, module, expr)
+    except AnchorError:
+        pass
+    key = (module.name, name)
+    if key in _busy:
+        raise AnchorError(f"const_value: cyclic constant {name}")
+    _busy.add(key)
+    try:
+        kind, val = partial_eval(prog, _ExprFn(module, name, expr), {})
+    finally:
+        _busy.discard(key)
+    if kind != "return":
+        raise AnchorError(f"const_value: {name} raises")
+    return val
+
+
+def eval_expr(prog: Program, module, expr: ast.AST):
+    """Value of a constant expression written in `module` (constants, pure string builders of the repo)."""
+    kind, val = partial_eval(prog, _ExprFn(module, "<expr>", expr), {})
+    if kind != "return":
+        raise AnchorError(f"eval_expr: `{ast.unparse(expr)[:60]}` raises")
+    return val
+
+
+class Sym(str):
+    """A placeholder symbol standing for an interpolated list (rendered as one private-use character)."""
+
+
+def partial_eval(prog: Program, fn, bindings: dict):
+    """Evaluate a small pure string-building function with concrete / placeholder arguments.
+
+    Supported: Assign to names, If on decidable conditions, Return, Raise (-> ('raise', text)),
+    IfExp, BoolOp, Compare (is None / ==), BinOp +, f-strings, names, constants and
+    `"sep".join(<generator over a placeholder parameter>)` (-> the placeholder's symbol).
+    Returns ('return', value) or ('raise', text)."""
+    env = dict(bindings)
+
+    def ev(e):
+        if isinstance(e, ast.Constant):
+            return e.value
+        if isinstance(e, ast.Name):
+            if e.id in env:
+                return env[e.id]
+            m = fn.module
+            if e.id in m.constants:
+                return const_value(prog, m, e.id)
+            ent = prog.resolve_name(m, e.id)
+            if isinstance(ent, tuple) and ent[0] == "const":
+                return const_value(prog, ent[1], ent[2])
+            raise AnchorError(f"partial_eval: unbound name {e.id} in {fn.qualname}")
+        if isinstance(e, (ast.List, ast.Tuple)):
+            return [ev(x) for x in e.elts]
+        if isinstance(e, ast.Attribute):
+            ent = prog.resolve_expr_entity(fn.module, e)
+            if isinstance(ent, tuple) and ent[0] == "const":
+                return const_value(prog, ent[1], ent[2])
+            if isinstance(ent, tuple) and ent[0] == "classattr":
+                return fold_str(prog, ent[1], ent[1].class_attrs[ent[2]])
+            raise AnchorError(f"partial_eval: unsupported attribute `{ast.unparse(e)[:70]}` in {fn.qualname}")
+        if isinstance(e, ast.JoinedStr):
+            out = ""
+            for v in e.values:
+                x = ev(v.value) if isinstance(v, ast.FormattedValue) else ev(v)
+                out += "" if x is None else str(x)
+            return out
+        if isinstance(e, ast.BinOp) and isinstance(e.op, ast.Add):
+            return ev(e.left) + ev(e.right)
+        if isinstance(e, ast.IfExp):
+            return ev(e.body) if truth(ev(e.test)) else ev(e.orelse)
+        if isinstance(e, ast.BoolOp):
+            vals = [ev(v) for v in e.values]
+            if isinstance(e.op, ast.And):
+                for v in vals:
+                    if not truth(v):
+                        return v
+                return vals[-1]
+            for v in vals:
+                if truth(v):
+                    return v
+            return vals[-1]
+        if isinstance(e, ast.UnaryOp) and isinstance(e.op, ast.Not):
+            return not truth(ev(e.operand))
+        if isinstance(e, ast.Compare) and len(e.ops) == 1:
+            l, r = ev(e.left), ev(e.comparators[0])
+            if isinstance(e.ops[0], ast.Is):
+                return l is r
+            if isinstance(e.ops[0], ast.IsNot):
+                return l is not r
+            if isinstance(e.ops[0], ast.Eq):
+                return l == r
+            if isinstance(e.ops[0], ast.NotEq):
+                return l != r
+        if isinstance(e, ast.Call) and isinstance(e.func, ast.Attribute) and e.func.attr == "join" and e.args \
+                and isinstance(e.args[0], (ast.GeneratorExp, ast.ListComp)):
+            src = e.args[0].generators[0].iter
+            v = ev(src)
+            if isinstance(v, Sym):
+                return str(v)
+            if v is None or v == []:
+                return ""
+            if isinstance(v, list) and len(e.args[0].generators) == 1 and not e.args[0].generators[0].ifs \
+                    and isinstance(e.args[0].generators[0].target, ast.Name):
+                var = e.args[0].generators[0].target.id
+                parts = []
+                saved = env.get(var, _MISSING)
+                for item in v:
+                    env[var] = item
+                    parts.append(ev(e.args[0].elt))
+                if saved is _MISSING:
+                    env.pop(var, None)
+                else:
+                    env[var] = saved
+                return ev(e.func.value).join(parts)
+            raise AnchorError("partial_eval: join over a non-placeholder")
+        if isinstance(e, ast.Call) and isinstance(e.func, ast.Attribute) and e.func.attr == "join" and len(e.args) == 1:
+            v = ev(e.args[0])
+            if isinstance(v, list) and all(isinstance(x, str) for x in v):
+                return ev(e.func.value).join(v)
+        if isinstance(e, ast.Call) and ast.unparse(e.func) == "re.escape" and len(e.args) == 1:
+            # the standard library's own escaping applied to a constant; no repository code runs
+            v = ev(e.args[0])
+            if isinstance(v, str) and not isinstance(v, Sym):
+                return _re.escape(v)
+        if isinstance(e, ast.Call) and isinstance(e.func, ast.Attribute) and e.func.attr == "replace" and len(e.args) == 2:
+            v, a, b = ev(e.func.value), ev(e.args[0]), ev(e.args[1])
+            if all(isinstance(x, str) and not isinstance(x, Sym) for x in (v, a, b)):
+                return v.replace(a, b)
+        if isinstance(e, ast.Call) and isinstance(e.func, (ast.Name, ast.Attribute)):
+            callee = prog.resolve_name(fn.module, e.func.id) if isinstance(e.func, ast.Name) \
+                else prog.resolve_expr_entity(fn.module, e.func)
+            if hasattr(callee, "node") and hasattr(callee, "params"):
+                ps = [p.arg for p in callee.params()]
+                b = {}
+                for i, a in enumerate(e.args):
+                    b[ps[i]] = ev(a)
+                for k in e.keywords:
+                    b[k.arg] = ev(k.value)
+                # defaults
+                a_ = callee.node.args
+                for p, d in zip(a_.args[len(a_.args) - len(a_.defaults):], a_.defaults):
+                    b.setdefault(p.arg, ev(d))
+                kind, val = partial_eval(prog, callee, b)
+                if kind == "raise":
+                    raise AnchorError(f"partial_eval: callee {callee.name} raises: {val}")
+                return val
+        raise AnchorError(f"partial_eval: unsupported expression `{ast.unparse(e)[:70]}` in {fn.qualname}")
+
+    def truth(v):
+        if isinstance(v, Sym):
+            return True
+        return bool(v)
+
+    def run(body):
+        for st in body:
+            if isinstance(st, ast.Expr) and isinstance(st.value, ast.Constant):
+                continue
+            if isinstance(st, ast.Assign) and len(st.targets) == 1 and isinstance(st.targets[0], ast.Name):
+                env[st.targets[0].id] = ev(st.value)
+            elif isinstance(st, ast.If):
+                r = run(st.body if truth(ev(st.test)) else st.orelse)
+                if r is not None:
+                    return r
+            elif isinstance(st, ast.Return):
+                return ("return", ev(st.value) if st.value is not None else None)
+            elif isinstance(st, ast.Raise):
+                return ("raise", ast.unparse(st)[:80])
+            else:
+                raise AnchorError(f"partial_eval: unsupported statement `{ast.unparse(st)[:60]}` in {fn.qualname}")
+        return None
+
+    r = run(fn.node.body)
+    return r if r is not None else ("return", None)
